@@ -195,6 +195,7 @@ def run(ctx):
     K.check_attribute_arms(ctx, f, "R-SIB", "rrdp::", 5)
     K.check_element_slots_fresh(ctx, f, "R-SIB", "rrdp::", 3)
     K.check_attr_values_unescaped(ctx, f)
+    K.check_attr_ascii_after_unescape(ctx, f)
     check_text_impls_escape(ctx, f)
     K.check_raw_text_writers(ctx, f)
     K.check_base64_chunking(ctx, f)
